@@ -60,6 +60,9 @@ func C13(tier rt.Tier) int {
 		}
 		scaleC13(rep, 200, added)
 	}
+	if rt.Replay == nil || rt.Replay.Run == "scripted-rollback" {
+		scriptedRollbacks(rep)
+	}
 	rep.Set("dedup", haveDump)
 	rep.Set("rule", "BFS over all histories {Update, delete (incl. same-value rewrites and delete-and-re-add of identical content), Commit(level)+batch.Commit, DeleteNodes anywhere, SaveRoot (checkpoint, once, on a committed state), then exactly one further commit, then Rollback() or RollbackTrie(checkpoint node)}; after the rollback: Root()/Weight()/owner of every block equal the checkpoint model, a trie reopened at the checkpoint root resolves every block with a verifying proof, and storage holds no key that was not there when the checkpoint was taken; the exploration continues after the rollback")
 	rep.Assumption("'the rolled-back commit' is the single commit since the checkpoint (the trie keeps the created-list of the last commit only)")
